@@ -175,6 +175,7 @@ class RefField:
         self.q = p**self.d
         self.prime = modulus is None
         self._inv = None
+        self._mul = {}
         self._squares = None
         self._roots = None
 
@@ -232,6 +233,15 @@ class RefField:
         p = self.p
         if self.prime:
             return a * b % p
+        if self.q <= 256:       # memoise (at most q*q entries)
+            r = self._mul.get((a, b))
+            if r is None:
+                r = self._mul[a, b] = self._mul_raw(a, b)
+            return r
+        return self._mul_raw(a, b)
+
+    def _mul_raw(self, a, b):
+        p = self.p
         return undigits(poly_mod(poly_mul(digits(a, p), digits(b, p), p), self.modulus, p), p)
 
     def power(self, a, e):
@@ -245,25 +255,25 @@ class RefField:
         return r
 
     def inv(self, a):
-        """Inverse of a != 0 (None for 0): brute-force table for small q, else a**(q-2)."""
+        """Inverse of a != 0 (None for 0): brute-force search for small q, else a**(q-2) by this
+        class's own square-and-multiply; either way certified by multiplying back."""
         if a == 0:
             return None
-        if self.q <= 4096:
-            if self._inv is None:
-                self._inv = {}
-            r = self._inv.get(a)
-            if r is None:
-                one = self.from_int(1)
+        if self._inv is None:
+            self._inv = {}
+        r = self._inv.get(a)
+        if r is None:
+            one = self.from_int(1)
+            if self.q <= 256:
                 for b in range(1, self.q):
                     if self.mul(a, b) == one:
                         r = b
                         break
-                assert r is not None
-                self._inv[a] = r
-                self._inv[r] = a
-            return r
-        r = self.power(a, self.q - 2)
-        assert self.mul(a, r) == self.from_int(1)
+            else:
+                r = self.power(a, self.q - 2)
+            assert r is not None and self.mul(a, r) == one
+            self._inv[a] = r
+            self._inv[r] = a
         return r
 
     def div(self, a, b):
